@@ -3,7 +3,8 @@
    the crop routine (C10Model.v) returns tables whose expansion is the k-prefix of the input's expansion. *)
 From V.lib Require Import Base.
 From V.c09 Require Import C09Model C09Spec C09Theorems.
-From V.c10 Require Import C10Model C10RlProofs C10CttsProofs C10StscProofs C10ConsProofs C10EndProofs C10LayoutProofs.
+From V.c10 Require Import C10Model C10RlProofs C10CttsProofs C10StscProofs C10ConsProofs C10EndProofs C10LayoutProofs
+  C10TermProofs.
 
 (* the hypotheses are satisfiable: C09's 7-sample example table with a cut inside a run, a chunk and a ctts entry *)
 Example ex_crop : consistent ex_tb = true /\
@@ -173,3 +174,40 @@ Theorem C10_layout_samples : forall file out first t c no n, static_ok file t ->
     sublist out (no - first + S_total_size (ts_tb t) (S_first_in_chunk (ts_tb t) c) (n - 1)) sz = sublist file off sz.
 Proof. exact sample_placed. Qed.
 Print Assumptions C10_layout_samples.
+
+(* fillTrakOutsAndByteRanges terminates: on tracks satisfying static_ok the model loop, given one unit of fuel per kept
+   chunk plus one (fill_fuel = 1 + sum of lastChunk.ChunkNr), returns a result — never OutOfFuel, never Err/Panic.
+   static_okb is the computable form of static_ok; the two-track example satisfies every hypothesis of C10_layout_total. *)
+Definition ex_file : list N := repeat 7 400.
+Definition ex_ts0 : list trak_state :=
+  [mkTS 1 ex_tb 5 3 1 [];
+   mkTS 2 (mkTables [4] [10] None (mkStsc [mkEntry 1 2 1] 1 []) (mkStsz 3 4 []) None (Some [150; 250]) None None) 3 2 1 []].
+Example ex_static : forallb (static_okb ex_file) ex_ts0 = true /\
+  (4611686018427387904 + pot ex_ts0 <? 18446744073709551616) = true /\
+  fill_loop (fill_fuel ex_ts0) ex_ts0 [] 0 0 =
+    Ok ([mkTS 1 ex_tb 5 3 4 [100; 115; 131]; mkTS 2 (ts_tb (nth 1 ex_ts0 (mkTS 0 ex_tb 0 0 0 []))) 3 2 3 [109; 128]],
+        [(100, 108); (150, 155); (200, 212); (250, 252); (300, 307)], 100).
+Proof. vm_compute. repeat split. Qed.
+
+Theorem C10_static_okb : forall file t, static_okb file t = true -> static_ok file t.
+Proof. exact static_okb_ok. Qed.
+Print Assumptions C10_static_okb.
+
+Theorem C10_fill_terminates : forall file ts0,
+  Forall (static_ok file) ts0 -> Forall (fun t => ts_next t = 1 /\ ts_offsets t = []) ts0 ->
+  exists ts' ranges first', fill_loop (fill_fuel ts0) ts0 [] 0 0 = Ok (ts', ranges, first').
+Proof. exact fill_terminates. Qed.
+Print Assumptions C10_fill_terminates.
+
+(* C10_layout without the hypothesis that the loop returns *)
+Theorem C10_layout_total : forall file ts0,
+  Forall (static_ok file) ts0 -> Forall (fun t => ts_next t = 1 /\ ts_offsets t = []) ts0 ->
+  4611686018427387904 + pot ts0 < 18446744073709551616 ->
+  exists ts' ranges first', fill_loop (fill_fuel ts0) ts0 [] 0 0 = Ok (ts', ranges, first') /\
+  map static ts' = map static ts0 /\
+  Forall (fun t => static_ok file t /\ ts_next t = ts_last_chunk t + 1 /\ lenN (ts_offsets t) = ts_last_chunk t /\
+                   forall c, 1 <= c <= ts_last_chunk t ->
+                             exists no, nthN (ts_offsets t) (c - 1) = Some no /\
+                                        chunk_placed file (out_bytes file ranges) first' t c no) ts'.
+Proof. exact layout_total. Qed.
+Print Assumptions C10_layout_total.
